@@ -1,5 +1,5 @@
 import DiscretModel.Lemmas.Lock
-import DiscretModel.Model.LockConn
+import DiscretModel.Lemmas.LockConn
 /-
 C20 — Room synchronisation locks: exclusive, bounded, never lost.
 
@@ -261,5 +261,52 @@ theorem C20_breaks_grantInFlightAtClose :
 theorem C20_grantInFlight_fixed :
     orphaned (srun Defects.none (sinit 1) grantInFlightTrace) 7 = false ∧
     ((srun Defects.none (sinit 1) grantInFlightTrace).conns.map (·.inbox)) = [[], [7]] := by decide
+
+/-! ### system level, code as fixed: exclusive, bounded, never lost — for every schedule
+
+The composed system: any number of connections, each with its inbox of grants, its tasks in their
+three phases, `close` at any moment; every interleaving of `conn / request / recv / task / close`
+(no party outside the model talks to the lock service). No bound on anything. -/
+
+/-- **C20 (system-level exclusivity).** In every reachable state no room is being synchronised —
+    or about to be — by two connections, nor twice by one connection. -/
+theorem C20_system_exclusive (max : Nat) (ops : List SOp) (hops : ops.all noRaw = true) :
+    let s := srun Defects.none (sinit max) ops
+    (∀ (i j : Nat) (ci cj : Conn) (r : Room) (pi pj : Nat), s.conns[i]? = some ci → s.conns[j]? = some cj →
+        (r, pi) ∈ ci.tasks → pi < 2 → (r, pj) ∈ cj.tasks → pj < 2 → i = j) ∧
+    (∀ (i : Nat) (c : Conn), s.conns[i]? = some c → ((c.tasks.filter fun t => t.2 < 2).map Prod.fst).Nodup) := by
+  intro s
+  have hj := srun_J (J_init max) ops hops
+  constructor
+  · intro i j ci cj r pi pj hci hcj hti hpi htj hpj
+    refine hj.disj i j ci cj r hci hcj ?_ ?_
+    · rw [active_eq]; apply List.mem_append_right
+      exact List.mem_map.mpr ⟨(r, pi), List.mem_filter.mpr ⟨hti, by simpa using hpi⟩, rfl⟩
+    · rw [active_eq]; apply List.mem_append_right
+      exact List.mem_map.mpr ⟨(r, pj), List.mem_filter.mpr ⟨htj, by simpa using hpj⟩, rfl⟩
+  · intro i c hc
+    have := hj.nodup i c hc
+    rw [active_eq] at this
+    exact (List.nodup_append.mp this).2.1
+
+/-- **C20 (system-level: bounded and never lost).** In every reachable state at most `max` rooms are
+    locked; every room a connection is responsible for is locked; and every locked room has a
+    connection responsible for releasing it — a grant in the inbox of an OPEN connection or a task
+    that has not yet sent its `Unlock` (a closed connection has an empty inbox). So a connection
+    that ends keeps nothing but its running tasks, each of which unlocks when it ends. -/
+theorem C20_system_no_lock_lost (max : Nat) (ops : List SOp) (hops : ops.all noRaw = true) :
+    let s := srun Defects.none (sinit max) ops
+    s.svc.locked.length ≤ max ∧
+    (∀ (i : Nat) (c : Conn) (r : Room), s.conns[i]? = some c → r ∈ active c → r ∈ s.svc.locked) ∧
+    (∀ r ∈ s.svc.locked, ∃ (i : Nat) (c : Conn), s.conns[i]? = some c ∧ r ∈ active c) ∧
+    (∀ (i : Nat) (c : Conn), s.conns[i]? = some c → c.closed = true → c.inbox = []) := by
+  intro s
+  have hj := srun_J (J_init max) ops hops
+  refine ⟨by have h := hj.inv.count; exact h ▸ Nat.le_add_right _ _, hj.ownLocked, fun r hr => hj.lockedOwned r hr (by simp), ?_⟩
+  intro i c hc hcl
+  exact (hj.closedOk i c hc hcl).1
+
+-- non-vacuity: the fixed-code traces above are reachable states covered by the theorems
+example : doubleUnlockTrace.all noRaw = true ∧ grantInFlightTrace.all noRaw = true := by decide
 
 end Discret.LockConn
